@@ -7,6 +7,7 @@ import SageModel.Model.C16
 
 events
   `S <tag> <id:optstr> <ref:optstr>`   start tag; tag ∈ sp sc bda bin pre ion o<k>
+  `B <tag>`                            start tag whose id / spectrumRef attribute holds a malformed entity
   `E <tag>`                            end tag
   `Z <tag>`                            empty element other than cvParam
   `C <cv 0..20> <val> <unit>`          cvParam; val ∈ `a` | `g` | `f <f32 bits>` | `n <nat>`; unit ∈ s m o a
@@ -112,6 +113,7 @@ def pEvent : P (Event B32) := do
   let t ← tok
   match t with
   | "S" => do let g ← pTag; let i ← optStr; let r ← optStr; pure (.start g i r)
+  | "B" => do let g ← pTag; pure (.startBad g)
   | "E" => do let g ← pTag; pure (.stop g)
   | "Z" => do let g ← pTag; pure (.empty g)
   | "C" => do let c ← pCv; let v ← pVal; let u ← pUnit; pure (.cv c v u)
@@ -145,7 +147,7 @@ def outSpec (s : Spectrum B32) : String :=
      outList outPrec s.precursors, outList outB s.mz, outList outB s.intensity]
 
 def errName : Err → String
-  | .malformed => "malformed" | .float => "float" | .int => "int" | .base64 => "base64" | .io => "io"
+  | .malformed => "malformed" | .float => "float" | .int => "int" | .base64 => "base64" | .io => "io" | .xml => "xml"
 
 def outResult : Except Err (List (Spectrum B32)) → String
   | .error e => "err:" ++ errName e
